@@ -58,7 +58,7 @@ def main():
      "hooks":{"guard":"penne_verif","enable":"no source hooks are needed: every seam is external (LD_PRELOAD simos.so, --backend/PENNE_* stub backend, public library API); checks build /repo's working tree with `cargo build --features alpha,llvm-sys` via tools/build.sh","baseline_off_cmd":"cd /repo && cargo test --workspace --no-fail-fast --offline","source_commits":[],"add_only":True},
      "engines":[e for e in ENGINES if e["serves_properties"][0] in have],
      "checks":[CHECKS[p] for p in have],
-     "notes":"./check selftest proves determinism of the simulator (same seed twice, different worker counts, different PYTHONHASHSEED). Repairs of genuine defects are the 15 `fix:` commits in /repo, listed as `fixed:` in known_findings.txt together with the 12 `known:` findings; tools/regress.sh is the regression net for them; sensitivity/ holds deliberate breaks incl. the reverse patch of every repair; seeded/ the independently written breaking changes.",
+     "notes":"./check selftest proves determinism of the simulator (same seed twice, different worker counts, different PYTHONHASHSEED). Repairs of genuine defects are the 16 `fix:` commits in /repo, listed as `fixed:` in known_findings.txt together with the 14 `known:` findings; tools/regress.sh is the regression net for them; sensitivity/ holds deliberate breaks incl. the reverse patch of every repair; seeded/ the independently written breaking changes.",
      "not_applicable":sorted(na,key=lambda x:x["property_id"])}
     json.dump(m,open(os.path.join(HERE,"MANIFEST.json"),"w"),indent=1)
     print("MANIFEST: checks", have)
